@@ -20,7 +20,9 @@ where
         usize::try_from(n).map_err(|e| io::Error::new(io::ErrorKind::InvalidData, e))
     })?;
 
-    let mut references = Vec::with_capacity(n_ref);
+    // The reference sequence count is read from the stream and cannot be trusted for
+    // preallocation.
+    let mut references = Vec::new();
 
     for _ in 0..n_ref {
         let (bins, metadata) = read_bins(reader)?;
